@@ -208,6 +208,8 @@ def weights(profile):
         w.update(sleep=0.3, wait_put=1, wait_get=1, hold=0)
     elif profile == "prio_storm":
         w.update(rp=7, rg=7, max_put=4, max_get=4, cancel_pput=2, cancel_pget=2, cancel_gput=2, cancel_gget=2, put=3, get=3)
+    elif profile == "cancel_storm":
+        w.update(rg=9, get=4, cancel_gget=9, cancel_pget=1, max_get=4, put=9, rp=7, max_put=3, sleep=2, wait_get=2, wait_put=1)
     elif profile == "slow_consumer":
         w.update(rg=2, get=2, sleep=5, rp=6, put=8)
     return w
